@@ -264,7 +264,13 @@ func (s *Store) Prewrite(req PrewriteReq) (results []Res, applied bool) {
 			}
 		}
 		if m.Op == "check-not-exists" {
-			// no lock is written, but a version newer than start ts (or the txn's own rollback marker) fails the check
+			// no lock is written, but the check stops at any foreign lock, and a version newer than start ts
+			// (or the txn's own rollback marker) fails it
+			if l := k.Lock; l != nil && l.Start != req.Start {
+				results = append(results, Res{Classes: []string{Locked}, LockInfo: l})
+				anyErr = true
+				continue
+			}
 			var classes []string
 			if k.hasMarker(req.Start) {
 				classes = append(classes, AlreadyRolledBk)
